@@ -182,6 +182,8 @@ def quantize (dp : Int) (m : Mode) (x : Val) : Val :=
   match x with
   | .fin n c e =>
     if c == 0 then .fin n 0 0
+    else if e + dp ≥ 0 then .fin n c e         -- exponent already ≥ -dp: a multiple, unchanged
+    else if e + dp < -((ndigits c : Int) + 1) then .fin n 0 0   -- below a tenth of the quantum
     else
       let s := (c : Rat) * pow10 (e + dp)      -- |x| in units of the quantum 10^-dp
       if s.den == 1 then .fin n c e            -- already a multiple: unchanged
@@ -195,6 +197,9 @@ def ceilDp (dp : Int) (x : Val) : Val :=
   match x with
   | .fin n c e =>
     if c == 0 then .fin n 0 0
+    else if e + dp ≥ 0 then .fin n c e
+    else if e + dp < -((ndigits c : Int) + 1) then        -- 0 < |x| < quantum
+      (if n then .fin n 0 0 else exactOrInfS n 1 (-dp))
     else
       let s := (c : Rat) * pow10 (e + dp)
       if s.den == 1 then .fin n c e
@@ -207,6 +212,9 @@ def floorDp (dp : Int) (x : Val) : Val :=
   match x with
   | .fin n c e =>
     if c == 0 then .fin n 0 0
+    else if e + dp ≥ 0 then .fin n c e
+    else if e + dp < -((ndigits c : Int) + 1) then
+      (if n then exactOrInfS n 1 (-dp) else .fin n 0 0)
     else
       let s := (c : Rat) * pow10 (e + dp)
       if s.den == 1 then .fin n c e
